@@ -74,3 +74,8 @@ claim('C17',
       note="Trusted: harness/refs/dfe_quad.py (scipy.stats cdfs, multivariate normal cdf). 2-D tolerance: 2e-3 relative plus (3e-4 + 1e-2 x probability mass outside the cached grid) absolute - the code asks scipy.integrate for 1e-3. DFEs whose marginal median lies beyond twice the largest cached gamma are not judged (adaptive quadrature on a semi-infinite interval can miss their peak). OS scheduling is not controlled: worker count and job split are.",
       technique="property-based differential testing (Hypothesis) against closed-form-cdf quadrature; schedule variation (worker count / job split) with bitwise comparison; injected faults",
       design_ref="DESIGN.md 3/C17")
+claim('C13',
+      text="Synthetic genotype matrices (1-3 populations, missing calls, filtered / non-SNP / multi-allelic lines, ancestral-allele annotations of every kind, chromosome names with '_' and '.', unlisted samples, plain and gzip files) are emitted as VCF + popinfo and as SNP tables, parsed by dadi and compared with direct counting: per-SNP calls, spectrum entries (polarised or folded), totals = usable projectable SNPs; chunks must partition the SNPs by genomic window and add up to the whole, bootstraps must be multiset sums of chunk spectra; subsampling must use exactly the requested individuals drawn from the called genotypes; S, pi, theta_W, theta_L, Tajima's D and Weir-Cockerham Fst are recomputed SNP by SNP from the genotype matrix.",
+      note="Trusted: math.comb, formulas typed from Tajima (1989) and Weir & Cockerham (1984, with b = 0 as the docstring states). DP=0 / AD=0,0 only accompany ./. genotypes. Positions are unique (a repeated CHROM_POS overwrites the earlier SNP). The byte-level fuzzing supplement planned in DESIGN is not built.",
+      technique="property-based differential testing (Hypothesis): generated genotype data written to real files and parsed, against direct counting",
+      design_ref="DESIGN.md 3/C13")
